@@ -22,7 +22,7 @@ demo_path=$(python3 -c "import json;print(json.load(open('$src/meta.json'))['dem
 demo_cmd=$(python3 - <<PY
 import json,re
 c=json.load(open('$src/meta.json'))['demo_cmd']
-k=c.rfind('go test')
+k=c.find('go test')
 c=c[k:]
 c=re.split(r'\s+#|\s*&&|\s*;', c)[0]
 print(c)
